@@ -37,6 +37,7 @@ struct JVal {
   bool has_dup_keys() const;                   // this object only
   void clear_maps();                           // recursively reset has_map
   bool nonfinite_deep() const;
+  size_t max_object_size() const;              // largest number of members of any object in the value
 };
 
 // equality "as JSON values with number kinds distinguished" (objects as key->value maps; only
